@@ -252,7 +252,7 @@ def parse_harness(text):
             cur = None
         elif cur is not None and line.startswith("@"):
             k, _, v = line[1:].partition(" ")
-            cur[k] = v
+            cur[k] = v.replace("\x01", "\n").replace("\x02", "\r")
     return cases
 
 
